@@ -16,25 +16,25 @@ pub fn init(args: &[String]) {
     }
 }
 
-fn err() -> Sexp {
+pub fn err() -> Sexp {
     Sexp::tag("err", vec![])
 }
-fn ok(args: Vec<Sexp>) -> Sexp {
+pub fn ok(args: Vec<Sexp>) -> Sexp {
     Sexp::tag("ok", args)
 }
-fn bad(msg: &str) -> Sexp {
+pub fn bad(msg: &str) -> Sexp {
     Sexp::tag("bad-case", vec![Sexp::hex(msg.as_bytes())])
 }
 
 /// run f; a panic becomes the observation (panic)
-fn guarded<F: FnOnce() -> Sexp>(f: F) -> Sexp {
+pub fn guarded<F: FnOnce() -> Sexp>(f: F) -> Sexp {
     match catch_unwind(AssertUnwindSafe(f)) {
         Ok(s) => s,
         Err(_) => Sexp::tag("panic", vec![]),
     }
 }
 
-fn parse_schema(x: &Sexp) -> Result<Schema, Sexp> {
+pub fn parse_schema(x: &Sexp) -> Result<Schema, Sexp> {
     let txt = x.as_str_utf8().ok_or_else(|| bad("schema text"))?;
     match catch_unwind(AssertUnwindSafe(|| Schema::parse_str(&txt))) {
         Ok(Ok(s)) => Ok(s),
@@ -229,6 +229,12 @@ pub fn run_case(c: &Sexp) -> Sexp {
                 }
             })
         }
+        // (cfile #schema-json codec block_size #marker OP...) with OP =
+        //   (append V) (append-unvalidated V) (flush) (meta #k #v) (reset) (finish) (drop) (reopen)
+        // -> (obs SCHEMA (results r...) #sink)
+        "cfile" => crate::container::cfile(a),
+        // (cread #file) -> (obs (ok SCHEMA (meta (kv #k #v)...) | (open-err)) (items (ok V)|(err) ...))
+        "cread" => crate::container::cread(a),
         "sizes" => Sexp::tag(
             "sizes",
             vec![
